@@ -49,7 +49,10 @@ def tree_hash():
 def build(verbose=False, variant="default"):
     """Returns the path of the scratch `src` directory of a build of the current tree."""
     os.makedirs(SCRATCH_ROOT, exist_ok=True)
-    lock = open(os.path.join(SCRATCH_ROOT, ".lock"), "w")
+    nolock = variant.endswith("-nolock")
+    if nolock:
+        variant = variant[:-len("-nolock")]
+    lock = open(os.path.join(SCRATCH_ROOT, ".lock" if not nolock else ".lock2"), "w")
     fcntl.flock(lock, fcntl.LOCK_EX)
     try:
         th = tree_hash()
@@ -70,8 +73,28 @@ def build(verbose=False, variant="default"):
         env = dict(os.environ)
         env.pop("PYTHONPATH", None)
         if variant == "asan":
-            env["CFLAGS"] = "-fsanitize=address,undefined -fno-omit-frame-pointer -UNDEBUG -O1 -g"
-            env["LDFLAGS"] = "-fsanitize=address,undefined"
+            # sanitize the C kernel library only (the Cython glue takes minutes to build with sanitizers):
+            # take the regular build and replace libfqe.so by an ASan+UBSan build of the same C sources,
+            # with -DNDEBUG as in the shipped build (the C asserts are compiled out there: the one in
+            # zdiagonal_coulomb_apply, `norbs < MAX_ORBS`, is off by one at norb = 64 and would abort)
+            shutil.rmtree(dest, ignore_errors=True)
+            base = os.path.dirname(build(verbose=verbose, variant="default-nolock"))
+            shutil.copytree(base, dest)
+            os.remove(os.path.join(dest, ".built"))
+            lib = os.path.join(dest, "src", "fqe", "lib")
+            csrc = [os.path.join(lib, f) for f in sorted(os.listdir(lib))
+                    if f.endswith(".c") and not f.startswith("_")]
+            cmd = ["gcc", "-O1", "-g", "-fsanitize=address,undefined", "-fno-omit-frame-pointer", "-fno-sanitize-recover=undefined",
+                   "-DNDEBUG", "-fopenmp", "-fPIC", "-shared", "-I" + lib, "-o", os.path.join(lib, "libfqe.so")] + csrc
+            t0 = time.time()
+            r = subprocess.run(cmd, stdout=subprocess.PIPE, stderr=subprocess.STDOUT, text=True)
+            if r.returncode != 0:
+                sys.stderr.write(r.stdout[-4000:])
+                shutil.rmtree(dest, ignore_errors=True)
+                raise RuntimeError("sanitizer build of the C library failed")
+            with open(marker, "w") as fh:
+                fh.write(f"{time.time() - t0:.1f}\n")
+            return os.path.join(dest, "src")
         elif variant == "noomp":
             env["CFLAGS"] = "-fno-openmp"
         t0 = time.time()
